@@ -118,7 +118,19 @@ where
     let shard = self.shared.store.get_shard(&key_for_event);
 
     // Insert the new entry into the hash map.
-    self.shard_guard.insert(self.key, new_cache_entry);
+    if let Some(old) = self.shard_guard.insert(self.key, new_cache_entry) {
+      // An expired entry was still resident: it is replaced like in `insert`.
+      if let Some(wheel) = &shard.timer_wheel {
+        if let Some(handle) = &old.ttl_timer_handle {
+          wheel.cancel(handle);
+        }
+      }
+      self
+        .shared
+        .metrics
+        .current_cost
+        .fetch_sub(old.cost(), std::sync::atomic::Ordering::Relaxed);
+    }
 
     // We must drop the guard for the current shard before any other operations
     // that might try to lock other shards, although in this new model, we don't.
